@@ -12,7 +12,8 @@ from ..msref.transport import Session
 PROP = "C16"
 MOD = __name__
 
-RULE = ("announced SASL lists: every ordered selection of up to 4 of {DIGEST-MD5, PLAIN, LOGIN, OAUTHBEARER, SCRAM-SHA-1, GSSAPI} "
+RULE = ("announced SASL lists: every ordered selection of up to 4 of {DIGEST-MD5, PLAIN, LOGIN, OAUTHBEARER, SCRAM-SHA-1, GSSAPI, "
+        "X-PLAIN-SUBMIT, XOAUTHBEARER, NTLM-LOGIN} "
         "incl. the empty list and a missing SASL capability (enumerated) x preferred mechanism {None, each implemented, two "
         "unimplemented names} x Hypothesis unicode credentials (NUL-free; commas, '=', quotes, spaces, non-ASCII; empty or "
         "non-empty authorisation id) x server verdict; oracle: mechanism-selection rule; payload decoded by reference SASL servers "
@@ -21,7 +22,8 @@ RULE = ("announced SASL lists: every ordered selection of up to 4 of {DIGEST-MD5
         "mechanism qualifies. Non-trivial = credentials with a non-ASCII or separator character, or >= 2 implemented mechanisms "
         "announced; distinct by (list, authmech, credentials).")
 
-MECHS = ["DIGEST-MD5", "PLAIN", "LOGIN", "OAUTHBEARER", "SCRAM-SHA-1", "GSSAPI"]
+# unknown mechanisms include names that merely contain an implemented one
+MECHS = ["DIGEST-MD5", "PLAIN", "LOGIN", "OAUTHBEARER", "SCRAM-SHA-1", "GSSAPI", "X-PLAIN-SUBMIT", "XOAUTHBEARER", "NTLM-LOGIN"]
 IMPL = ["DIGEST-MD5", "PLAIN", "LOGIN", "OAUTHBEARER"]
 AUTHMECHS = [None, "DIGEST-MD5", "PLAIN", "LOGIN", "OAUTHBEARER", "SCRAM-SHA-1", "NTLM"]
 CRED_PARTS = ["a", "b", "Z", "0", ",", "=", '"', "\\", " ", "é", "€", "😀", "@", ".", ":", "=2C", "'", "user", "pass"]
